@@ -195,9 +195,13 @@ def orbit_number_checks(ctx, rng, tle, ti, floats_out):
             continue                                   # int() truncates toward zero: below zero the two clauses of the property disagree
         want = rev + expected_count(tc, s)
         if n_int != want:
+            ecc, inc = float("0." + tle[1][26:33]), float(tle[1][8:16])
+            # KNOWN class (known_findings.json): eccentric orbits close to the equatorial plane, where the node-to-node
+            # interval is modulated by apsidal rotation; only moderate errors fall under it, gross ones keep a per-input signature
+            known = ecc >= 0.02 and (inc <= 30.0 or inc >= 150.0) and near <= 15.0 * abs(s) / 86400.0 + 5.0
             ctx.violation("orbit number differs from TLE rev + signed count of ascending equator crossings since epoch",
-                          {"signature": sig % "count", **info, "expected": want, "seconds_to_nearest_crossing": near,
-                           "exemption_s": 2.0 + 5.0 * abs(s) / 86400.0})
+                          {"signature": "C11:count:eccentric-low-inclination" if known else sig % "count", **info, "expected": want,
+                           "seconds_to_nearest_crossing": near, "exemption_s": 2.0 + 5.0 * abs(s) / 86400.0})
     # equator crossing time: the continuous number is an integer there
     for _ in range(ctx.n(2, 5)):
         s0 = rng.uniform(-86400, 5 * 86400 - 8000)
@@ -314,6 +318,13 @@ def run(ctx):
     floats = []
     for ti in range(ctx.n(3, 16)):
         tle = gen_tle(rng, drag_free=True)
+        if ctx.quick:
+            # quick tier: exactly one element set from the known eccentric / near-equatorial class, the others outside it
+            if ti == 1:
+                tle = gen_tle(rng, drag_free=True, inc=rng.choice([rng.uniform(3, 30), rng.uniform(150, 177)]), ecc=rng.randint(200000, 600000),
+                              mm=rng.uniform(12.5, 14.5))
+            elif float("0." + tle[1][26:33]) >= 0.02 and not 30.0 < float(tle[1][8:16]) < 150.0:
+                tle = gen_tle(rng, drag_free=True, inc=rng.uniform(31, 149))
         try:
             make_orb(tle)
         except Exception:
